@@ -579,6 +579,63 @@ def r_records(root):
             if not okf:
                 for pr in ("C28", "C33", "C23"): out.append(Finding(pr, pr + ".V", "textx/exceptions.py", sub + ".__init__", " ".join(ast.unparse(c).split())[:100], "%s accepts %s but hands %s to the base constructor for it: the field is lost or lands in another field of the error" % (sub, f_, ast.unparse(given[f_]) if f_ in given else "nothing"), witness="raise %s(msg, line=1, col=2, nchar=3, filename='f')" % sub))
     return inst, out
+# ---------------------------------------------------------------------------------------------------------------- .F
+PARAM_PROPS = {"encoding": ("C28", "C17"), "ignore_case": ("C20",), "autokwd": ("C21",), "skipws": ("C22",), "ws": ("C22",), "memoization": ("C19",), "model_params": ("C27",),
+               "custom_args": ("C30",), "overwrite": ("C31", "C30"), "output_path": ("C30",), "kwargs": ("C20", "C21", "C22", "C27"), "file_name": ("C28",), "is_main_model": ("C17",),
+               "add_to_local_models": ("C17",), "project_name": ("C26",), "project_version": ("C26",), "pre_ref_resolution_callback": ("C17",), "importAs": ("C17",), "search_path": ("C17",)}
+FILE_PROPS = {"textx/cli/generate.py": ("C30",), "textx/cli/check.py": ("C30",), "textx/registration.py": ("C26", "C30"), "textx/generators.py": ("C31",)}
+FWD_EXCEPT = {   # (function, callee, parameter): reason
+    ("TextXMetaModel.model_from_str", "get_model_from_str", "file_name"): "branch taken only when file_name is None",
+    ("TextXMetaModel.model_from_str", "get_model_from_str", "encoding"): "a model given as a string is not decoded",
+}
+def r_forward(root):
+    """pass-through parameters: when a function takes a parameter p and calls a function of the code base (resolved by its
+    unique name; for a class, its constructor) that also takes a parameter named p, the call hands p on — by keyword, by
+    position or through **kwargs.  The same for **kwargs to a callee that accepts **kwargs.  Dropping one silently replaces
+    the caller's value by the callee's default (encoding of imported files, metamodel options of the textX language,
+    custom generator arguments ...)."""
+    import glob as _glob, os as _os
+    out = []; inst = 0
+    files = sorted(_os.path.relpath(f, root) for f in _glob.glob(_os.path.join(root, "textx", "**", "*.py"), recursive=True))
+    defs = {}
+    for rel in files:
+        t = load(root, rel)
+        for n in ast.walk(t):
+            if isinstance(n, ast.FunctionDef) and n.name != "__init__": defs.setdefault(n.name, []).append(n)
+            elif isinstance(n, ast.ClassDef):
+                ini = next((f for f in n.body if isinstance(f, ast.FunctionDef) and f.name == "__init__"), None)
+                if ini is not None: defs.setdefault(n.name, []).append(ini)
+    mmi = find(load(root, MM), "TextXMetaModel.__init__"); mm_opts = [a.arg for a in mmi.args.args[1:] + mmi.args.kwonlyargs]
+    for rel in files:
+        t = load(root, rel)
+        for fn in [n for n in ast.walk(t) if isinstance(n, ast.FunctionDef)]:
+            fparams = [a.arg for a in fn.args.args + fn.args.kwonlyargs if a.arg not in ("self", "cls")]
+            for enc in [a for a in ancestors(fn) if isinstance(a, ast.FunctionDef)]:          # closure: a decorator's inner function forwards the outer parameters
+                fparams += [a.arg for a in enc.args.args + enc.args.kwonlyargs if a.arg not in ("self", "cls") and a.arg not in fparams]
+            fkw = fn.args.kwarg.arg if fn.args.kwarg else None
+            if not fparams and not fkw: continue
+            for c in calls(fn, own=True):
+                nm = callee_name(c)
+                if nm not in defs or len(defs[nm]) != 1 or defs[nm][0] is fn: continue
+                g = defs[nm][0]
+                gparams = [a.arg for a in g.args.args + g.args.kwonlyargs if a.arg not in ("self", "cls")]
+                if nm in ("metamodel_from_file", "metamodel_from_str"): gparams = gparams + [x for x in mm_opts if x not in gparams]     # their **kwargs are the options of TextXMetaModel
+                star = any(k.arg is None for k in c.keywords) or any(isinstance(a, ast.Starred) for a in c.args)
+                given = {k.arg for k in c.keywords if k.arg} | {gparams[i] for i in range(min(len(c.args), len(gparams)))}
+                q = qualname(fn); q2 = ".".join(q.split(".")[-2:])
+                todo = [(p, p in given or star) for p in fparams if p in gparams]
+                if fkw and g.args.kwarg is not None: todo.append(("**" + fkw, any(k.arg is None and ast.unparse(k.value) == fkw for k in c.keywords) or any(isinstance(a, ast.Name) and a.id == fkw for a in c.args)))
+                for p, ok in todo:
+                    pn = p.lstrip("*"); key = "kwargs" if p.startswith("**") else pn
+                    if (q2, nm, pn) in FWD_EXCEPT: continue
+                    ps = set(PARAM_PROPS.get(key, ())) | set(FILE_PROPS.get(rel, ()))
+                    if not ps: continue
+                    inst += 1
+                    for pr in sorted(ps): ob(pr, pr + ".F", rel, q, "%s(... %s ...)" % (nm, p), ok)
+                    if not ok:
+                        for pr in sorted(ps): out.append(Finding(pr, pr + ".F", rel, q, " ".join(ast.unparse(c).split())[:100], "%s takes %s and %s accepts it, but the call does not hand it on: the callee works with its default instead of the caller's value" % (fn.name, p, nm), witness="a non-default %s" % p))
+    if inst < 20: raise AnalysisError("forwarding rule: only %d pass-through sites found" % inst)
+    return inst, out
 def families():
     """clause family letter -> properties it can attribute findings to"""
     allp = set()
@@ -587,4 +644,4 @@ def families():
     for _f, _pre, ps in MEMO_ATTRIB: mp |= set(ps)
     op = set()
     for ps in OPT_PROPS.values(): op |= set(ps)
-    return {"T": allp, "M": mp, "O": op, "S": {"C19", "C16", "C20", "C21", "C01", "C02", "C32", "C11", "C12", "C22"}, "P": {"C09", "C11"}, "V": {"C07", "C08", "C09", "C28", "C34", "C33", "C23"}}
+    return {"T": allp, "M": mp, "O": op, "S": {"C19", "C16", "C20", "C21", "C01", "C02", "C32", "C11", "C12", "C22"}, "P": {"C09", "C11"}, "V": {"C07", "C08", "C09", "C28", "C34", "C33", "C23"}, "F": {"C17", "C19", "C20", "C21", "C22", "C26", "C27", "C28", "C30", "C31"}}
